@@ -142,7 +142,7 @@ pub fn profile(prop: &str, thorough: bool) -> Option<Profile> {
             name: "roundtrip-injection",
             ops: (35, 60),
             w: Weights {
-                add_dim: 1, del_dim: 1, add_attr: 4, del_attr: 3, rename: 2, disable: 2, update: 6, rekey: 5,
+                add_dim: 2, del_dim: 1, add_attr: 4, del_attr: 4, rename: 2, disable: 2, update: 6, rekey: 5,
                 prune: 3, keygen: 5, refresh: 6, encaps: 7, recaps: 1, roundtrip: 14, derive_mpk: 1, matrix: 4, ..z
             },
             random_hints: true,
